@@ -108,6 +108,11 @@ func tail(s string, n int) string {
 }
 
 func supervise(names []string, secs int, tier string) {
+	if dir := os.Getenv("VERIF_SCRATCH"); dir != "" {
+		for _, n := range allStructures {
+			os.Remove(dir + "/" + n + ".report.txt") // reports of earlier runs
+		}
+	}
 	res := make([]childResult, len(names))
 	var wg sync.WaitGroup
 	for i, n := range names {
@@ -318,7 +323,12 @@ func dumpAndExit(why string) {
 
 // run lets the groups work for `secs` seconds under a watchdog, then joins them.
 func (s *soak) run(secs int, during func(elapsed time.Duration)) {
+	// generous: the machine may be shared with other heavy jobs; a stall is re-run by the
+	// supervisor before it is reported
 	stall := 75 * time.Second
+	if secs > 60 {
+		stall = 150 * time.Second
+	}
 	start := time.Now()
 	last := make([]int64, len(s.groups))
 	lastChange := make([]time.Time, len(s.groups))
@@ -327,12 +337,21 @@ func (s *soak) run(secs int, during func(elapsed time.Duration)) {
 	}
 	tick := time.NewTicker(100 * time.Millisecond)
 	defer tick.Stop()
+	lastReport := start
 	for time.Since(start) < time.Duration(secs)*time.Second {
 		<-tick.C
 		if during != nil {
 			during(time.Since(start))
 		}
 		now := time.Now()
+		if os.Getenv("C18_PROGRESS") != "" && now.Sub(lastReport) > 10*time.Second {
+			lastReport = now
+			var b strings.Builder
+			for _, g := range s.groups {
+				fmt.Fprintf(&b, " %s=%d", g.name, atomic.LoadInt64(&g.progress))
+			}
+			fmt.Fprintf(os.Stderr, "progress %3.0fs goroutines=%d:%s\n", now.Sub(start).Seconds(), runtime.NumGoroutine(), b.String())
+		}
 		for i, g := range s.groups {
 			p := atomic.LoadInt64(&g.progress)
 			if p != last[i] {
